@@ -123,6 +123,10 @@ def main(pid, tier, seed):
         meta[tid] = {'password': pw, 'kind': 'fragments', 'raised': raised, 'history': k % len(histories),
                      'final': [(len(x['t']), x['k'], x['n']) for x in tr['snaps'][-1]['sl']]}
 
+    # ---- the multi-word detector itself (MultiWord.tla): train / parse against the model, both directions ----
+    from . import multiword
+    mw_cov = multiword.stage(tier, random.Random(seed * 7919 + 13), verdict)
+
     verdicts, st = core.validate_traces('TrSeg.tla', traces, chunk=500, timeout=900)
     for t in traces:
         v = verdicts[t['tid']]
@@ -152,7 +156,7 @@ def main(pid, tier, seed):
                    'counter deltas; non-trivial = more than one final segment; distinct by password',
            'model_space_strings_parsed': len(strings),
            'impl_conformance': {'compared': len(strings), 'keyboard_stage_fired': n_kfired, 'result': 'drift' if drift else 'conforms', 'drift_examples': drift[:3]},
-           'trace_validation': st, 'exhaustive': False, 'known_findings_reproduced': n_known, 'binding_selftest': selftest,
+           'trace_validation': st, 'multiword_detector': mw_cov, 'exhaustive': False, 'known_findings_reproduced': n_known, 'binding_selftest': selftest,
            'violation_histogram': verdict.histogram()}
     core.write_evidence(pid, tier, seed, 'model_checking', cov, time.time() - t0, violations=n_viol,
                         assumptions=['TLC', 'character attributes (isalpha, isdigit, isupper, lower) taken from Python str methods',
